@@ -19,7 +19,7 @@ RULE = ('polynomial programs R^N -> R^M with integer coefficients (degree <= d+2
         '1e-11 x sum of absolute term values); smooth programs mirrored in mpmath and compared with mp.diff; '
         'a class = (driver, N, M or d, point kind, program style); non-trivial = N>=2 or d>=2')
 ASSUMPTIONS = ['exact Fraction arithmetic; mp.diff at 60 digits', 'the ordering of extract_tensor rows is taken from generate_multi_indices (validated as a set by C15)']
-REQUIRED = ['jacobian', 'jac_vec', 'hessian', 'hess_vec', 'tensor', 'tensor_full', 'smooth:jacobian', 'smooth:hessian', 'smooth:tensor']
+REQUIRED = ['jacobian', 'jacobian:matrix-seed', 'jac_vec', 'hessian', 'hess_vec', 'tensor', 'tensor_full', 'smooth:jacobian', 'smooth:hessian', 'smooth:tensor']
 
 
 def cases(tier, seed):
@@ -39,6 +39,9 @@ def cases(tier, seed):
                     if math.comb(N + d - 1, d) <= bound:
                         add('tensor', N=N, d=d, point=pt, rep=rep)
             add('smooth', N=min(N, 4), rep=rep)
+        for shp in ((2, 3), (3, 2), (1, 4), (2, 2)):
+            for lay in ('C', 'F', 'T', 'slice'):
+                add('jacmat', shape=list(shp), layout=lay, point=['int', 'real'][rep % 2], rep=rep)
         for (N, d) in ([(1, 11), (2, 11), (1, 16), (2, 13)] if tier == 'quick' else [(N, d) for N in (1, 2) for d in (11, 12, 13, 14, 16, 18)]):
             add('tensor', N=N, d=d, point='real', rep=rep)
     return out
@@ -121,6 +124,37 @@ def _jac(ctx, p, rng):
     ctx.ok('jac_vec', ('jv', N, M, p['point'], style))
 
 
+def _jacmat(ctx, p, rng):
+    """init_jacobian with a matrix-shaped seed point in any memory layout: direction k perturbs the element with C-order
+    (logical) index k, whatever the storage order; extract_jacobian returns the gradient in that order"""
+    r_, c_ = p['shape']
+    a = rng.integers(-3, 4, size=(r_, c_)).astype(float); b = rng.integers(-3, 4, size=(r_, c_)).astype(float)
+    X0 = _point(rng, r_ * c_, p['point']).reshape(r_, c_)
+    lay = p['layout']
+    Xin = {'C': X0.copy(), 'F': np.asfortranarray(X0), 'T': np.ascontiguousarray(X0.T).T, 'slice': np.zeros((r_, 2 * c_))[:, ::2]}[lay]
+    if lay == 'slice':
+        Xin[...] = X0
+    cross = [((0, 0), (r_ - 1, c_ - 1), 3.0), ((0, c_ - 1), (r_ - 1, 0), -2.0)]
+
+    def f(X):
+        y = algopy.sum(a * X * X + b * X)
+        for (i, j, w) in cross:
+            y = y + w * X[i] * X[j]
+        return y
+    G = 2 * a * X0 + b
+    for (i, j, w) in cross:
+        G[i] += w * X0[j]; G[j] += w * X0[i]
+    try:
+        J = np.asarray(UTPM.extract_jacobian(f(UTPM.init_jacobian(Xin))))
+    except Exception as e:
+        ctx.violation('jacobian:matrix-seed:raises', {'shape': [r_, c_], 'layout': lay, 'error': repr(e)[:200]}); return
+    if J.size != r_ * c_ or not np.array_equal(X0, np.asarray(Xin)):
+        ctx.violation('jacobian:matrix-seed:shape-or-seed-modified', {'shape': [r_, c_], 'layout': lay, 'got': list(J.shape)}); return
+    if not np.max(np.abs(J.reshape(-1) - G.reshape(-1))) <= 1e-11 * (1 + np.max(np.abs(G))):
+        ctx.violation('jacobian:matrix-seed:value', {'shape': [r_, c_], 'layout': lay, 'got': J.reshape(-1).tolist(), 'want': G.reshape(-1).tolist()}); return
+    ctx.ok('jacobian:matrix-seed', ('jacmat', r_, c_, lay, p['point']))
+
+
 def _hess(ctx, p, rng):
     N = p['N']
     poly = PP.random_poly(rng, N, 5, 5)
@@ -153,6 +187,17 @@ def _hess(ctx, p, rng):
             if not ok:
                 ctx.violation('hessian:value:%s' % ('diag' if i == j else 'offdiag'), {'N': N, 'i': i, 'j': j, 'got': float(H[i, j]), 'want': float(Hq[i][j](xq)), 'x': x.tolist()}); return
     ctx.ok('hessian', ('hess', N, p['point'], style), noise=worst)
+    # results handed out earlier stay what they were (a list of Hessians collected over several points)
+    snapH = H.copy()
+    try:
+        x2 = _point(rng, N, p['point'])
+        H2 = np.asarray(UTPM.extract_hessian(N, PP.evaluate(algopy, [poly], UTPM.init_hessian(x2.copy()), style)))
+        J2 = np.asarray(UTPM.extract_jacobian(PP.evaluate(algopy, [poly], UTPM.init_jacobian(x2.copy()), style)))
+    except Exception as e:
+        ctx.violation('hessian:second-call-raises', {'N': N, 'error': repr(e)[:200]}); return
+    if not np.array_equal(H, snapH) or (N > 1 and H2 is H):
+        ctx.violation('hessian:earlier-result-changed-by-later-extraction', {'N': N, 'same_object': bool(H2 is H)}); return
+    ctx.ok('results-stable', ('stable', 'hessian', N))
     try:
         X = UTPM.init_hess_vec(_typed(rng, x, p['point']), v.copy())
         Y = PP.evaluate(algopy, [poly], X, style)
